@@ -285,3 +285,60 @@ Proof.
       cbn [memo_get]. rewrite N.eqb_refl. reflexivity.
     + split; [exact Hc|]. split; [discriminate|]. intros _. split; [reflexivity|]. split; [reflexivity|exact Em].
 Qed.
+
+(* ------------------------------------------------------------------ the loop of getTxnStatusFromLock, for all scripts *)
+Lemma memo_get_cacheable cache txn v : Forall (fun e => cacheable (snd e) = true) cache -> memo_get cache txn = Some v -> cacheable v = true.
+Proof.
+  induction cache as [|[t0 v0] r IH]; intros Hc Em; [discriminate|]. inversion Hc; subst. cbn [memo_get] in Em.
+  destruct (t0 =? txn); [inversion Em; subst; assumption|apply IH; assumption].
+Qed.
+
+Lemma status_loop_spec l : forall fuel cache script rine, Forall (fun e => cacheable (snd e) = true) cache ->
+  let '(r, c', rqs, lft) := status_loop fuel cache l script rine in
+  Forall (fun e => cacheable (snd e) = true) c' /\
+  (forall rq, In rq rqs -> (rq_rine rq = true -> rine = true \/ li_expired l = true)
+                           /\ rq_cur_max rq = (li_ttl l =? 0) /\ rq_pess rq = li_pess l) /\
+  (forall v, r = SrStatus v -> cacheable v = true -> memo_get c' (li_txn l) = Some v) /\
+  (forall v, r = SrStatus v -> cacheable v = false -> c' = cache).
+Proof.
+  induction fuel as [|fuel IH]; intros cache script rine Hc; cbn [status_loop]; cbv zeta.
+  - split; [exact Hc|]. split; [intros rq []|]. split; intros v E; discriminate.
+  - destruct (memo_get cache (li_txn l)) as [v0|] eqn:Em.
+    + split; [exact Hc|]. split; [intros rq []|]. split; [intros v E _; inversion E; subst; exact Em|reflexivity].
+    + assert (Hrq : forall rq, rq = mkReq rine (li_ttl l =? 0) (li_pess l) ->
+                (rq_rine rq = true -> rine = true \/ li_expired l = true) /\ rq_cur_max rq = (li_ttl l =? 0) /\ rq_pess rq = li_pess l).
+      { intros rq0 E0. rewrite E0. cbn. repeat split. intros H0; left; exact H0. }
+      destruct script as [|[a|] rest].
+      * split; [exact Hc|]. split; [intros rq [E|[]]; apply Hrq; symmetry; exact E|]. split; intros v E; discriminate.
+      * destruct (cacheable (cview a)) eqn:Ec.
+        -- split; [constructor; assumption|]. split; [intros rq [E|[]]; apply Hrq; symmetry; exact E|]. split.
+           ++ intros v E _. inversion E; subst. cbn [memo_get]. rewrite N.eqb_refl. reflexivity.
+           ++ intros v E Hn. inversion E; subst. congruence.
+        -- split; [exact Hc|]. split; [intros rq [E|[]]; apply Hrq; symmetry; exact E|]. split.
+           ++ intros v E Hn. inversion E; subst. congruence.
+           ++ reflexivity.
+      * destruct (li_expired l) eqn:Ee.
+        -- specialize (IH cache rest true Hc). destruct (status_loop fuel cache l rest true) as [[[r c] rqs] lft].
+           destruct IH as [I1 [I2 [I3 I4]]]. split; [exact I1|]. split; [|split; assumption].
+           intros rq [E|Hin]; [apply Hrq; symmetry; exact E|]. destruct (I2 rq Hin) as [J1 J2]. split; [intros _; right; reflexivity|exact J2].
+        -- destruct (li_pess l) eqn:Ep.
+           ++ split; [exact Hc|]. split; [intros rq [E|[]]; apply Hrq; symmetry; exact E|]. split; [|reflexivity].
+              intros v E Hv. inversion E; subst v. exfalso. unfold li_expired in Ee. apply N.leb_gt in Ee.
+              unfold cacheable, determined3 in Hv. cbn in Hv. destruct (N.eqb_spec (li_ttl l) 0); [lia|]. cbn in Hv. discriminate.
+           ++ specialize (IH cache rest rine Hc). destruct (status_loop fuel cache l rest rine) as [[[r c] rqs] lft].
+              destruct IH as [I1 [I2 [I3 I4]]]. split; [exact I1|]. split; [|split; assumption].
+              intros rq [E|Hin]; [apply Hrq; symmetry; exact E|apply I2; exact Hin].
+Qed.
+
+Lemma status_from_lock_spec cache l script : Forall (fun e => cacheable (snd e) = true) cache ->
+  let '(r, c', rqs, lft) := status_from_lock cache l script in
+  Forall (fun e => cacheable (snd e) = true) c' /\
+  (forall rq, In rq rqs -> (rq_rine rq = true -> li_expired l = true) /\ rq_cur_max rq = (li_ttl l =? 0) /\ rq_pess rq = li_pess l) /\
+  (forall v, r = SrStatus v -> cacheable v = true -> memo_get c' (li_txn l) = Some v) /\
+  (forall v, r = SrStatus v -> cacheable v = false -> c' = cache).
+Proof.
+  intros Hc. unfold status_from_lock. pose proof (status_loop_spec l (S (length script)) cache script false Hc) as H.
+  destruct (status_loop (S (length script)) cache l script false) as [[[r c] rqs] lft].
+  destruct H as [H1 [H2 [H3 H4]]]. split; [exact H1|]. split; [|split; assumption].
+  intros rq Hin. destruct (H2 rq Hin) as [J1 J2]. split; [|exact J2]. intros Hr. destruct (J1 Hr) as [E|E]; [discriminate|exact E].
+Qed.
